@@ -47,6 +47,10 @@ type VC struct {
 	clock int
 	nilChecked map[string]bool
 	memClock map[string]int
+	fdefs    map[string]fdef
+	ringDone map[string]bool
+	ringNF   map[string]string
+	isFresh  map[string]bool
 }
 
 // memLink records how a memory symbol was derived from its parent, so that a
@@ -175,7 +179,7 @@ func (vc *VC) setRow(st *State, s Sort, ref, row string) {
 
 
 func newVC(eng *Engine, fn string) *VC {
-	return &VC{memClock: map[string]int{}, nilChecked: map[string]bool{}, links: map[string]*memLink{}, birth: map[string]int{}, isAlloc: map[string]bool{}, eng: eng, declared: map[string]string{}, sorts: map[Sort]bool{}, unmodelled: map[string]bool{},
+	return &VC{fdefs: map[string]fdef{}, ringDone: map[string]bool{}, ringNF: map[string]string{}, isFresh: map[string]bool{}, memClock: map[string]int{}, nilChecked: map[string]bool{}, links: map[string]*memLink{}, birth: map[string]int{}, isAlloc: map[string]bool{}, eng: eng, declared: map[string]string{}, sorts: map[Sort]bool{}, unmodelled: map[string]bool{},
 		assumptions: map[string]bool{}, axiomsUsed: map[string]bool{}, funcName: fn, counters: map[string]int{}}
 }
 
@@ -233,6 +237,9 @@ func (vc *VC) fresh(prefix string, s Sort) string {
 		// a value that exists now can only refer to objects allocated before now
 		vc.birth[c] = vc.clock
 	}
+	if s == SF {
+		vc.isFresh[c] = true
+	}
 	return c
 }
 
@@ -250,6 +257,16 @@ func (vc *VC) assert(t string) {
 		return
 	}
 	vc.emit("(assert " + t + ")")
+	if vc.sorts[SF] {
+		body, guard := t, "true"
+		if strings.HasPrefix(t, "(=> ") {
+			if n := parseSx(t); len(n.kids) == 3 {
+				guard, body = n.kids[1].String(), n.kids[2].String()
+			}
+		}
+		vc.noteDefs(body, guard)
+		vc.ringLemmas(t)
+	}
 }
 
 // bind names a term (keeps the emitted text small)
@@ -258,6 +275,9 @@ func (vc *VC) bind(prefix string, s Sort, term string) string {
 		return term
 	}
 	c := vc.fresh(prefix, s)
+	if s == SF {
+		vc.fdefs[c] = fdef{term: term, guard: "true"}
+	}
 	vc.assert(sEq(c, term))
 	if b, ok := vc.birth[term]; ok {
 		vc.birth[c] = b
@@ -281,10 +301,17 @@ func (vc *VC) oblig(kind, label, reach, goal string, pos token.Position, props [
 	if label != "" {
 		name = fmt.Sprintf("%s#%s(%s)", vc.funcName, kind, label)
 	}
+	goal = vc.skolemize(goal)
+	if vc.sorts[SF] {
+		vc.ringLemmas(goal)
+	}
 	o := &Obl{Name: name, Kind: kind, Goal: goal, Reach: reach, Pos: pos, LineIdx: len(vc.lines), Props: props, Text: text, Func: vc.funcName}
 	vc.obls = append(vc.obls, o)
 	// after the check the goal is assumed on this path
 	vc.assert(sImp(reach, goal))
+	if strings.HasPrefix(label, "unchanged") && vc.sorts[SF] {
+		vc.noteAtomDefs(goal, reach)
+	}
 	return o
 }
 
@@ -393,7 +420,9 @@ func (vc *VC) query(o *Obl) string {
 	return b.String()
 }
 
-// commutative-ring theory for the abstract field sort F (valid in every field)
+// Theory of the abstract field sort F: only unit / zero / negation / inverse / no-zero-divisor facts are
+// left to the solver; associativity, commutativity and distributivity are applied by the generator
+// (ring.go: normal-form lemmas), because quantified AC axioms make the solvers slow and unstable.
 const fieldTheory = `(declare-const f0 F)
 (declare-const f1 F)
 (declare-fun fadd (F F) F)
@@ -403,22 +432,22 @@ const fieldTheory = `(declare-const f0 F)
 (declare-fun ofInt (Int) F)
 (define-fun fsub ((x F) (y F)) F (fadd x (fneg y)))
 (assert (distinct f0 f1))
-(assert (forall ((x F) (y F)) (! (= (fadd x y) (fadd y x)) :pattern ((fadd x y)))))
-(assert (forall ((x F) (y F)) (! (= (fmul x y) (fmul y x)) :pattern ((fmul x y)))))
-(assert (forall ((x F) (y F) (z F)) (! (= (fadd (fadd x y) z) (fadd x (fadd y z))) :pattern ((fadd (fadd x y) z)))))
-(assert (forall ((x F) (y F) (z F)) (! (= (fmul (fmul x y) z) (fmul x (fmul y z))) :pattern ((fmul (fmul x y) z)))))
 (assert (forall ((x F)) (! (= (fadd x f0) x) :pattern ((fadd x f0)))))
+(assert (forall ((x F)) (! (= (fadd f0 x) x) :pattern ((fadd f0 x)))))
 (assert (forall ((x F)) (! (= (fmul x f1) x) :pattern ((fmul x f1)))))
+(assert (forall ((x F)) (! (= (fmul f1 x) x) :pattern ((fmul f1 x)))))
 (assert (forall ((x F)) (! (= (fmul x f0) f0) :pattern ((fmul x f0)))))
-(assert (forall ((x F)) (! (= (fadd x (fneg x)) f0) :pattern ((fneg x)))))
-(assert (forall ((x F) (y F) (z F)) (! (= (fmul x (fadd y z)) (fadd (fmul x y) (fmul x z))) :pattern ((fmul x (fadd y z))))))
-(assert (forall ((x F) (y F)) (! (= (fneg (fadd x y)) (fadd (fneg x) (fneg y))) :pattern ((fneg (fadd x y))))))
-(assert (forall ((x F) (y F)) (! (= (fmul x (fneg y)) (fneg (fmul x y))) :pattern ((fmul x (fneg y))))))
+(assert (forall ((x F)) (! (= (fmul f0 x) f0) :pattern ((fmul f0 x)))))
+(assert (forall ((x F)) (! (= (fadd x (fneg x)) f0) :pattern ((fadd x (fneg x))))))
+(assert (forall ((x F)) (! (= (fadd (fneg x) x) f0) :pattern ((fadd (fneg x) x)))))
 (assert (forall ((x F)) (! (= (fneg (fneg x)) x) :pattern ((fneg (fneg x))))))
+(assert (forall ((x F)) (! (= (fmul (fneg f1) x) (fneg x)) :pattern ((fmul (fneg f1) x)))))
+(assert (forall ((x F)) (! (= (fmul x (fneg f1)) (fneg x)) :pattern ((fmul x (fneg f1))))))
+(assert (forall ((x F) (y F)) (! (= (= (fadd x (fneg y)) f0) (= x y)) :pattern ((fadd x (fneg y))))))
 (assert (= (fneg f0) f0))
 (assert (= (ofInt 0) f0))
 (assert (= (ofInt 1) f1))
-(assert (forall ((x F)) (! (=> (distinct x f0) (= (fmul x (finv x)) f1)) :pattern ((finv x)))))
+(assert (forall ((x F)) (! (=> (distinct x f0) (and (= (fmul x (finv x)) f1) (= (fmul (finv x) x) f1))) :pattern ((finv x)))))
 (assert (= (finv f0) f0))
 (assert (forall ((x F) (y F)) (! (=> (= (fmul x y) f0) (or (= x f0) (= y f0))) :pattern ((fmul x y)))))
 `
@@ -588,4 +617,63 @@ func (vc *VC) typeFacts(l *Layouter, t types.Type, c []string, brk string) []str
 		}
 	}
 	return out
+}
+
+// skolemize: a goal  A ==> forall x :: B(x)  (or  forall x :: B(x)) is proved for fresh constants.
+func (vc *VC) skolemize(goal string) string {
+	if !strings.Contains(goal, "(forall ") {
+		return goal
+	}
+	root := parseSx(goal)
+	var rec func(n *sx) *sx
+	rec = func(n *sx) *sx {
+		switch n.head() {
+		case "=>":
+			if len(n.kids) == 3 {
+				return &sx{kids: []*sx{n.kids[0], n.kids[1], rec(n.kids[2])}}
+			}
+		case "and":
+			out := &sx{kids: []*sx{n.kids[0]}}
+			for _, k := range n.kids[1:] {
+				out.kids = append(out.kids, rec(k))
+			}
+			return out
+		case "forall":
+			if len(n.kids) == 3 {
+				body := n.kids[2].String()
+				if n.kids[2].head() == "!" {
+					body = n.kids[2].kids[1].String()
+				}
+				for _, b := range n.kids[1].kids {
+					if len(b.kids) == 2 && b.kids[0].kids == nil && b.kids[1].kids == nil {
+						c := vc.fresh("sk_"+b.kids[0].atom, Sort(b.kids[1].atom))
+						body = replaceSymbol(body, b.kids[0].atom, c)
+					} else {
+						return n
+					}
+				}
+				return rec(parseSx(body))
+			}
+		}
+		return n
+	}
+	return rec(root).String()
+}
+
+func replaceSymbol(s, from, to string) string {
+	n := parseSx(s)
+	var rec func(n *sx)
+	rec = func(n *sx) {
+		if n.kids == nil {
+			if n.atom == from {
+				n.atom = to
+			}
+			return
+		}
+		for _, k := range n.kids {
+			rec(k)
+		}
+	}
+	rec(n)
+	return n.String()
 }
